@@ -103,6 +103,14 @@ def run(tier, seed):
     else:
         v.tlc_ok(r, "TraceDisk(chunked)")
     nested.append(ct)
+    # a recovery must not act on a STALE journal image: sessions that begin with a multi-sector intent right after a
+    # quiescent restart (the slot the first image after an open goes to; torn variants of that image; what the other
+    # slot still holds) - every crash image is recovered by the abstract reader and by the real code
+    v2, st2, tr2 = ce.run_and_validate(PROP, fxv, rd, ce.restart_wide_jobs(rng, 2 if tier == "quick" else 8), ce.CRASH_INV + ce.REAL_INV)
+    viol += v2
+    st["states"] += st2["states"]
+    st["transitions"] += st2["transitions"]
+    st["images"] += st2["images_real"]
     kinds = {}
     for t in nested:
         for line in open(t):
